@@ -64,6 +64,11 @@ def chunked(rng, stream, style):
         elif style == 'after_escape' and i > 0 and stream[i - 1] == 0xFD:
             items.append(None)
         items.append(x)
+    if style == 'long_pause':
+        # the peer falls silent in the middle of packets for a long time (hundreds of polls, i.e. seconds) and then goes on with the rest
+        inside = [i for i in range(1, len(items)) if items[i] != 0xFE and items[i - 1] != 0xFE and items[i] is not None]
+        for i in sorted(rng.sample(inside, min(len(inside), rng.randrange(1, 4))), reverse=True):
+            items.insert(i, ('gap', rng.choice([250, 400, 1000])))
     return items
 
 def gen_stream(ctx, k):
@@ -135,7 +140,7 @@ def gen_stream(ctx, k):
                 parts[i + 1] = (nx[1:], 'merged')
                 ncorr += 1
     stream = b''.join(p[0] for p in parts)
-    style = rng.choice(['all', 'bytewise', 'random', 'after_escape'])
+    style = rng.choice(['all', 'bytewise', 'random', 'after_escape', 'long_pause'])
     return stream, style, parts, ncorr
 
 def reference_messages(stream):
@@ -169,7 +174,11 @@ def scenario_for_stream(ctx, k, stream, style):
     cuts = []
     cnt = 0
     for (payload, s, e) in packets:
-        cnt += 6
+        # the user queue keeps 128 messages: count what a packet really carries (a packet of the largest size has up to 63 messages)
+        try:
+            cnt += max(6, len(model.split_messages(payload))) if payload is not None else 6
+        except model.FrameError:
+            cnt += 6
         if cnt >= 60:
             cuts.append(e)
             cnt = 0
